@@ -329,6 +329,48 @@ func lagOps(r *rng.R, k int) []opSpec {
 	return ops
 }
 
+// uncOps: most of the wallet's funds sit in unconfirmed outputs of its own pooled
+// transactions (each pays 1 hasting away and the rest back to the wallet), the
+// confirmed spendable balance is small; then several requests with
+// useUnconfirmed=true are outstanding at once (no release, no broadcast between
+// them), so each must be served from unconfirmed outputs nobody holds yet.
+func uncOps(r *rng.R, n int) []opSpec {
+	var ops []opSpec
+	v2 := r.Chance(2, 3)
+	k := n - r.Intn(2)
+	for i := 0; i < k; i++ {
+		pv2 := v2
+		if r.Chance(1, 6) {
+			pv2 = !v2 // a parent of the other version: never a candidate
+		}
+		ops = append(ops, opSpec{Kind: "fund", V2: pv2, Amount: "1"}, opSpec{Kind: "broadcast", Ref: -1, ViaWallet: r.Bool()})
+	}
+	if r.Chance(1, 4) {
+		// spend an unconfirmed output again, still in the pool: children of children
+		ops = append(ops, opSpec{Kind: "fund", V2: v2, Amount: "bal+1", Unc: true}, opSpec{Kind: "broadcast", Ref: -1})
+	}
+	for i, m := 0, 2+r.Intn(4); i < m; i++ {
+		o := opSpec{Kind: "fund", V2: v2, Amount: []string{"bal+1", "bal+1", "p1+1", "2"}[r.Intn(4)], Unc: true}
+		if r.Chance(1, 8) {
+			o.V2 = !v2
+		}
+		ops = append(ops, o)
+		if r.Chance(1, 6) {
+			ops = append(ops, opSpec{Kind: "fund", V2: v2, Amount: "1", Unc: false})
+		}
+	}
+	if r.Bool() {
+		nn := 2 + r.Intn(2)
+		ops = append(ops, opSpec{Kind: "split", N: nn, Min: "1" + unit})
+	}
+	ops = append(ops, opSpec{Kind: "release", Ref: -2}, opSpec{Kind: "fund", V2: v2, Amount: "bal+1", Unc: true},
+		opSpec{Kind: "broadcast", Ref: -1}, opSpec{Kind: "fund", V2: v2, Amount: "bal+1", Unc: true})
+	if r.Bool() {
+		ops = append(ops, opSpec{Kind: "mine"}, opSpec{Kind: "fund", V2: v2, Amount: "bal", ThenRelease: true})
+	}
+	return ops
+}
+
 // c07Corpus: minimised earlier failures, run first.
 func c07Corpus() []caseSpec {
 	v := func(ks ...int) []string {
@@ -356,6 +398,14 @@ func c07Corpus() []caseSpec {
 				{Kind: "fund", V2: true, Amount: "p1"}, {Kind: "broadcast", Ref: -1}, {Kind: "fund", V2: false, Amount: "p1"}, {Kind: "broadcast", Ref: -1},
 				{Kind: "redist", Outputs: 2, Amount: "2" + unit, FeePerB: "0"}, {Kind: "broadcast", Ref: -1}, {Kind: "fund", V2: true, Amount: "bal+1"}, {Kind: "sync"},
 				{Kind: "fund", V2: true, Amount: "bal", ThenRelease: true}}, Probe: true},
+		// several outstanding requests served from unconfirmed outputs: each unconfirmed output at most once
+		{Name: "corpus-outstanding-unconfirmed", Cfg: cfgSpec{Thresh: 30, MaxIn: 30, MaxDefrag: 10}, Setup: setupSpec{Values: v(50, 30, 8), Seed: 17},
+			Ops: []opSpec{{Kind: "fund", V2: true, Amount: "1"}, {Kind: "broadcast", Ref: -1}, {Kind: "fund", V2: true, Amount: "1"}, {Kind: "broadcast", Ref: -1, ViaWallet: true},
+				{Kind: "fund", V2: true, Amount: "bal+1", Unc: true}, {Kind: "fund", V2: true, Amount: "bal+1", Unc: true}, {Kind: "fund", V2: true, Amount: "bal+1", Unc: true},
+				{Kind: "release", Ref: -2}, {Kind: "fund", V2: true, Amount: "bal+1", Unc: true}}, Probe: false},
+		{Name: "corpus-outstanding-unconfirmed-v1", Cfg: cfgSpec{Thresh: 3, MaxIn: 5, MaxDefrag: 2}, Setup: setupSpec{Values: v(40, 20), Seed: 18},
+			Ops: []opSpec{{Kind: "fund", Amount: "1"}, {Kind: "broadcast", Ref: -1}, {Kind: "fund", Amount: "1"}, {Kind: "broadcast", Ref: -1},
+				{Kind: "fund", Amount: "2", Unc: true}, {Kind: "fund", Amount: "2", Unc: true}, {Kind: "fund", Amount: "2", Unc: true}}},
 		// unconfirmed outputs, redistribute, split
 		{Name: "corpus-unconfirmed-redistribute-split", Cfg: cfgSpec{Thresh: 5, MaxIn: 30, MaxDefrag: 10}, Setup: setupSpec{Values: v(300, 90, 40, 15), Seed: 15},
 			Ops: []opSpec{{Kind: "fund", V2: true, Amount: "p1-1"}, {Kind: "broadcast", Ref: -1}, {Kind: "fund", V2: true, Amount: "bal+1", Unc: true}, {Kind: "fund", V2: true, Amount: "p1", Unc: true, ThenRelease: true},
@@ -453,7 +503,7 @@ func runC07(c *hx.Ctx) {
 
 	var specs []caseSpec
 	specs = append(specs, c07Corpus()...)
-	nGrid, nRand, nTies := c.Scale(128, 1280), c.Scale(130, 3000), c.Scale(45, 800)
+	nGrid, nRand, nTies := c.Scale(128, 1280), c.Scale(110, 3000), c.Scale(40, 800)
 	for i := 0; i < nGrid; i++ {
 		r := c.R.Fork()
 		s := caseSpec{Name: fmt.Sprintf("grid-%d", i), Cfg: gridCfg(i + int(c.Seed)), Setup: genSetup(r, false, 8), Probe: r.Chance(1, 3)}
@@ -491,6 +541,18 @@ func runC07(c *hx.Ctx) {
 		}
 		s.Setup.Immature = 1 + r.Intn(2)
 		s.Ops = lagOps(r, []int{1, 5, 40}[i%3])
+		specs = append(specs, s)
+	}
+
+	nUnc := c.Scale(30, 300)
+	for i := 0; i < nUnc; i++ {
+		r := c.R.Fork()
+		s := caseSpec{Name: fmt.Sprintf("unconfirmed-%d", i), Cfg: gridCfg(r.Intn(128)), Setup: genSetup(r, false, 5)}
+		if len(s.Setup.Values) < 2 {
+			s.Setup.Values = []string{"37" + unit, "21" + unit, "9" + unit}
+		}
+		s.Cfg.Short = s.Cfg.Short && r.Chance(1, 3)
+		s.Ops = uncOps(r, len(s.Setup.Values))
 		specs = append(specs, s)
 	}
 
@@ -561,7 +623,7 @@ func runC07(c *hx.Ctx) {
 	for i := 0; i < 2 && i < len(results); i++ {
 		res.Sample(map[string]any{"case": results[len(c07Corpus())+i].spec})
 	}
-	res.Explored = map[string]any{"option_grid": "4x4x4x2 (every combination at least once in the grid stream)", "grid_cases": nGrid, "random_cases": nRand, "tie_cases": nTies, "store_behind_manager_cases": nLag, "store_behind_by_blocks": "1, 5, 40"}
+	res.Explored = map[string]any{"option_grid": "4x4x4x2 (every combination at least once in the grid stream)", "grid_cases": nGrid, "random_cases": nRand, "tie_cases": nTies, "store_behind_manager_cases": nLag, "outstanding_unconfirmed_cases": nUnc, "store_behind_by_blocks": "1, 5, 40"}
 	soak(c)
 	// several small files: bin/check evaluates them in parallel, and Coq's
 	// elaboration of the literal case terms dominates the cost
